@@ -106,6 +106,10 @@ SERIES = (
     ((1.0, 1), (1.0, 2), (2.0, 3), (0.0, 4), (3.0, 5), (1.0, 6)),
     ((0.25, 1), (3.75, 2)),
     (),
+    # values the library has no business looking at: missing values (None, Praat's '--undefined--') beside numbers AT THE SAME TIME, dictionaries,
+    # complex numbers, rows of different widths - only column 0 is a time
+    ((0.5, None), (1.0, None), (1.0, 34.0), (1.5, "--undefined--"), (1.5, 32.0), (2.0, {"f0": 1}), (2.0, {"f0": 0}), (3.0, 3 + 4j), (3.0, 1j), (3.5, None)),
+    ((1.0, 34.0), (1.0, None), (2.0, 1.0, "x"), (2.0, 1.0), (2.0,), (3.0, [1]), (3.0, "a")),
 )
 
 
